@@ -28,7 +28,19 @@ CHUNKINGS = {
     "freq_split": lambda da: da.chunk({"freq": 3}),
     "dir_split": lambda da: da.chunk({"dir": 3}),
     "freq_dir_split": lambda da: da.chunk({"time": 2, "freq": 2, "dir": 4}),
+    # spectra one record per chunk, the positions that travel with them (non-index coordinates) lazily loaded as ONE chunk: what a
+    # store with per-variable chunks hands over
+    "coords_apart": lambda da: with_positions(da.chunk({"time": 1}), lazy=True),
 }
+
+
+def with_positions(da, lazy):
+    n = da.sizes["time"]
+    lon, lat = np.linspace(10.0, 11.0, n), np.linspace(-5.0, -4.0, n)
+    if lazy:
+        import dask.array as dsa
+        lon, lat = dsa.from_array(lon, chunks=n), dsa.from_array(lat, chunks=n)
+    return da.assign_coords(lon=("time", lon), lat=("time", lat))
 OPS = [op for op in S.ALL_OPS if op not in ("interp_like",)] + S.FIT_OPS + S.TRACK_OPS
 
 
@@ -156,7 +168,7 @@ def run(ctx):
         ctx.sample({"kind": "threaded schedule", "workers": workers, "threads_seen": nthreads, "first_events": events[:6]}, cap=2)
     # ---- chunking half
     ctx.rule = ("DaskSched: all interleavings of 3-4 tasks over 2 shapes on 3 workers; recorded threaded runs on 16 (2,4,16) workers; "
-                "chunking: every operation x 7 chunkings x schedulers (synchronous, threads 1/4/16). distinct_nontrivial = distinct "
+                "chunking: every operation x 8 chunkings x schedulers (synchronous, threads 1/4/16). distinct_nontrivial = distinct "
                 "(operation, chunking, scheduler).")
     ctx.exhaustive = True
     base = S.make(1)
@@ -188,7 +200,12 @@ def run(ctx):
                 rel = 3e-6 if op in ("tp", "tp_raw", "fp", "dp", "dpm", "dpspr", "alpha", "gamma") else 1e-9
                 if op in ("fit_jonswap", "fit_gaussian"):
                     rel = 1e-4
-                d = S.circular_same(got, mem[op], rel) if op in ("dm", "dp", "dpm") else S.same(got, mem[op], rel, abs_=1e-6 if rel == 1e-4 else 1e-9)
+                ref = mem[op]
+                if cname == "coords_apart":
+                    if (op, "pos") not in mem:
+                        mem[(op, "pos")] = S.project(S.call(with_positions(base, lazy=False), op))
+                    ref = mem[(op, "pos")]
+                d = S.circular_same(got, ref, rel) if op in ("dm", "dp", "dpm") else S.same(got, ref, rel, abs_=1e-6 if rel == 1e-4 else 1e-9)
                 if d is None:
                     ctx.replayed()
                 else:
